@@ -45,13 +45,21 @@ structure St where
   r : RSys := {}                              -- server state + client adapter
   rdone : List (Nat × HRes) := []
   watches : List Nat := []
+  wcalls : List (Nat × Gen.WatchCall) := []   -- the adapter method behind each remote watch
+  stall : Bool := false                        -- header stall=1: both states behind the harness' staller
+  wbuf : List (Nat × Nat) := []                -- subscriber channel capacity of each watch
+  heldD : List (Nat × Nat) := []               -- held watches: deliveries already past the forwarder (direct side)
+  heldR : List (Nat × Nat) := []               --   … remote side
   tdCalls : Nat := 0                          -- spec mode: calls of the client methods so far
   tadCalls : Nat := 0
 deriving Inhabited
 
 def init (spec : Bool) (a : List (String × String)) : St :=
-  let ws : WSys := { cfg := { nsAware := true } }
-  { spec := spec, raw := arg a "mode" == "raw", d := ws,
+  let stall := arg a "stall" == "1"
+  let ws : WSys := if stall then { cfg := { nsAware := true }, initCap := argNat a "initcap", maxCap := argNat a "maxcap",
+                                   gap := argNat a "gap" }
+                   else { cfg := { nsAware := true } }
+  { spec := spec, raw := arg a "mode" == "raw", d := ws, stall := stall,
     r := { srv := { ws := ws, caps := { hasTeardown := arg a "td" != "0", hasTad := arg a "tad" != "0" } } } }
 
 /-! ### printing -/
@@ -245,6 +253,36 @@ def rawLine (st : St) (a : List (String × String)) : St × String :=
         | .pending => "raw crash=false iserr=false st=PENDING"
         | _ => "raw crash=false iserr=false st=OK")
 
+/-! ### the harness' staller (header stall=1)
+
+Between each state and its watchers' consumers sits ONE forwarder goroutine per harness watch:
+behind it the gRPC pipeline (remote side) resp. a subscriber channel made just as deep (direct
+side): both absorb whatever a case can produce, so only a HELD forwarder makes a watch lag. While held
+the forwarder keeps the one event it has (or takes next) and passes nothing on. -/
+
+def setCap (ws : WSys) (wid : Nat) (f : Watcher → Nat) : WSys :=
+  { ws with watchers := ws.watchers.map fun w => if w.wid = wid then { w with chanCap := f w } else w }
+
+def pipelineCap : Nat := 100000
+
+/-- receive from a HELD watch: only what had passed the forwarder when it was stopped (`n` deliveries
+    left); the forwarder keeps its one slot, so the room behind it shrinks as the subscriber drains -/
+def drainHeld : Nat → WSys → Nat → Nat → WSys × List Event × Nat
+  | 0, ws, _, n => (ws, [], n)
+  | _ + 1, ws, _, 0 => (ws, [], 0)
+  | f + 1, ws, wid, n + 1 =>
+    match ws.recv wid with
+    | (ws', some d) =>
+      let ws' := setCap ws' wid fun w => w.chanCap - 1
+      let (ws'', rest, m) := drainHeld f ws'.settle wid n
+      (ws'', d ++ rest, m)
+    | (_, none) => (ws, [], n + 1)
+
+def chanLen (ws : WSys) (wid : Nat) : Nat :=
+  match ws.watchers.find? (·.wid = wid) with
+  | some w => w.chan.length
+  | none => 0
+
 /-! ### one op -/
 
 def stepLock (st : St) (op : String) (a : List (String × String)) : St × String :=
@@ -260,32 +298,56 @@ def stepLock (st : St) (op : String) (a : List (String × String)) : St × Strin
     let o : StartOpts := { bootstrap := arg a "boot" == "1", bootstrapBookmark := arg a "bb" == "1",
                            tail := argNat a "tail", bookmark := bm }
     let sel := Cosi.Driver.Watch.parseSel (arg a "sel")
-    let (d', e) := st.d.startWatch wid (arg a "ns") (arg a "typ") kind sel (argNat a "buf") o
+    let dcap := if st.stall then pipelineCap else argNat a "buf"
+    let (d', e) := st.d.startWatch wid (arg a "ns") (arg a "typ") kind sel dcap o
     let ds := match e with
       | some .invalidBookmark => "err~invalidBookmark"
       | some .other => "err~other"
       | none => "ok"
     let d' := if e.isNone then d'.settle else d'
     if st.spec then
-      ({ st with d := d', watches := wid :: st.watches }, s!"direct={ds} remote={ds}")
+      ({ st with d := d', watches := wid :: st.watches, wbuf := (wid, argNat a "buf") :: st.wbuf }, s!"direct={ds} remote={ds}")
     else
       let (r', re, crashed) := st.r.startWatch wid now (arg a "ns") (arg a "typ") kind sel o
+      let r' := if st.stall then { r' with srv := { r'.srv with ws := (setCap r'.srv.ws wid fun _ => pipelineCap).settle } } else r' 
       let rs := if crashed then "PANIC" else match re with
         | none => "ok"
         | some c => "err~" ++ clsStr c
-      ({ st with d := d', r := r', watches := wid :: st.watches }, s!"direct={ds} remote={rs}")
+      ({ st with d := d', r := r', watches := wid :: st.watches, wcalls := (wid, callOf kind) :: st.wcalls,
+                 wbuf := (wid, argNat a "buf") :: st.wbuf },
+       s!"direct={ds} remote={rs}")
   | "recv" =>
     let wid := argNat a "w"
-    let (d', evs) := drain fuel st.d wid
+    let (d', evs, hd) := match st.heldD.lookup wid with
+      | some n => let (d', evs, m) := drainHeld fuel st.d wid n; (d', evs, (wid, m) :: st.heldD.filter (·.1 ≠ wid))
+      | none => let (d', evs) := drain fuel st.d wid; (d', evs, st.heldD)
     if st.spec then
-      ({ st with d := d' }, s!"direct={evsStr evs} remote={evsStr (evs.map Spec.Remote.wireImage)}")
+      ({ st with d := d', heldD := hd }, s!"direct={evsStr evs} remote={evsStr (evs.map Spec.Remote.wireImage)}")
     else
-      let (ws', revs) := drain fuel st.r.srv.ws wid
-      ({ st with d := d', r := { st.r with srv := { st.r.srv with ws := ws' } } },
-       s!"direct={evsStr evs} remote={evsStr (revs.map wireEvent)}")
+      let (ws', revs, hr) := match st.heldR.lookup wid with
+        | some n => let (ws', revs, m) := drainHeld fuel st.r.srv.ws wid n; (ws', revs, (wid, m) :: st.heldR.filter (·.1 ≠ wid))
+        | none => let (ws', revs) := drain fuel st.r.srv.ws wid; (ws', revs, st.heldR)
+      ({ st with d := d', heldD := hd, heldR := hr, r := { st.r with srv := { st.r.srv with ws := ws' } } },
+       s!"direct={evsStr evs} remote={evsStr (revs.filterMap (wireDeliver ((st.wcalls.lookup wid).getD .watchKind)))}")
+  | "hold" =>
+    -- the forwarder stops passing events on: it keeps the next one it takes
+    let wid := argNat a "w"
+    if (st.heldD.lookup wid).isSome || !st.stall then (st, "direct=ok remote=ok") else
+    let f (w : Watcher) : Nat := w.chan.length + 1
+    ({ st with d := setCap st.d wid f, r := { st.r with srv := { st.r.srv with ws := setCap st.r.srv.ws wid f } },
+               heldD := (wid, chanLen st.d wid) :: st.heldD, heldR := (wid, chanLen st.r.srv.ws wid) :: st.heldR },
+     "direct=ok remote=ok")
+  | "release" =>
+    let wid := argNat a "w"
+    if (st.heldD.lookup wid).isNone then (st, "direct=ok remote=ok") else
+    ({ st with d := (setCap st.d wid fun _ => pipelineCap).settle,
+               r := { st.r with srv := { st.r.srv with ws := (setCap st.r.srv.ws wid fun _ => pipelineCap).settle } },
+               heldD := st.heldD.filter (·.1 ≠ wid), heldR := st.heldR.filter (·.1 ≠ wid) },
+     "direct=ok remote=ok")
   | "wstop" =>
     let wid := argNat a "w"
-    ({ st with d := st.d.stopWatch wid, r := { st.r with srv := { st.r.srv with ws := st.r.srv.ws.stopWatch wid } } },
+    ({ st with d := st.d.stopWatch wid, r := { st.r with srv := { st.r.srv with ws := st.r.srv.ws.stopWatch wid } },
+               heldD := st.heldD.filter (·.1 ≠ wid), heldR := st.heldR.filter (·.1 ≠ wid) },
      "direct=ok remote=ok")
   | "teardown" =>
     let cid := argNat a "a"
